@@ -354,6 +354,26 @@ def run_correspondence(res, family, cases, prop, corr_name=None):
     go = shard_run(os.path.join(BUILD, "hcdrv"), family, lines)
     mo = shard_run(os.path.join(BUILD, "modelrun"), family, lines, group=grp)
     known = {k["key"]: k for k in load_known() if k.get("property") == res.pid and k.get("state") == "known"}
+    # Full-stack runs go over real sockets with deadlines: a case that fails is run again (alone, twice); only a
+    # failure that repeats counts. Intermittent failures are recorded in the evidence (flaky_cases).
+    retry = getattr(prop, "RETRY", 0)
+    if retry:
+        def bad(c):
+            g, m = go.get(c["id"], "NO-OUTPUT"), mo.get(c["id"], "NO-OUTPUT")
+            agree = prop.same(c, g, m) if hasattr(prop, "same") else (g == m)
+            return (not agree) or bool(prop.oracle(c, g))
+        suspects = [c for c in cases if bad(c)]
+        flaky = 0
+        for c in suspects[:40]:
+            for _ in range(retry):
+                again = shard_run(os.path.join(BUILD, "hcdrv"), family, ["%s %s" % (c["id"], c["line"])])
+                old = go[c["id"]]
+                go[c["id"]] = again.get(c["id"], "NO-OUTPUT")
+                if not bad(c):
+                    flaky += 1
+                    res.extra.setdefault("flaky_cases", []).append({"case": c["line"][-400:], "first_observation": old[:300]})
+                    break
+        res.extra["flaky"] = res.extra.get("flaky", 0) + flaky
     disagreements = 0
     first_dis = None
     for c in cases:
